@@ -309,6 +309,15 @@ func hazards(t interface{}) string {
 						found["insert-select-ending-in-join-without-condition-before-on-duplicate-key"] = true
 					}
 				}
+			case "FuncExpr":
+				// a function name that is not a plain word is printed without the quotes it was written with
+				if name := v.FieldByName("Name").FieldByName("val").String(); name != "" && !plainWord(name) {
+					found["function-name-needing-quotes"] = true
+				}
+			case "AliasedTableExpr":
+				if as := v.FieldByName("As"); as.FieldByName("v").String() == "" && as.FieldByName("quote").Uint() != 0 {
+					found["empty-quoted-table-alias"] = true
+				}
 			case "GroupConcatExpr":
 				sep := v.FieldByName("Separator").String()
 				if i := strings.Index(sep, "'"); i >= 0 && len(sep) > i+2 {
@@ -343,6 +352,16 @@ func hazards(t interface{}) string {
 	}
 	sort.Strings(out)
 	return strings.Join(out, "+")
+}
+
+func plainWord(s string) bool {
+	for i := 0; i < len(s); i++ {
+		c := s[i]
+		if !(c == '_' || c >= 'a' && c <= 'z' || c >= 'A' && c <= 'Z' || i > 0 && c >= '0' && c <= '9') {
+			return false
+		}
+	}
+	return true
 }
 
 // endsInOpenJoin: the statement text ends with "JOIN <table>" without ON / USING, so that a following
@@ -693,6 +712,7 @@ func Run(r *ev.Run) {
 		} else {
 			m.phaseSubstPG()
 		}
+		m.phaseComments()
 	}
 	setDialect(sqlgen.MySQL)
 	// non-vacuity
@@ -711,6 +731,7 @@ func Run(r *ev.Run) {
 	r.RequireAtLeast("pg_rewrite_leaves_replaced", int64(r.Pick(150, 4000)))
 	r.RequireAtLeast("pg_search_rewrites", int64(r.Pick(50, 2000)))
 	r.RequireSetAtLeast("generated_kinds_round_tripped", 12)
+	commentGuards(r)
 }
 
 func (m *mon) phaseRoundTrip(harvested []sqlgen.Harvested) {
